@@ -161,6 +161,36 @@ theorem retention_keeps_newest (max : Nat) (L : List (Nat × Nat)) :
     rw [← List.take_append_drop max (sortDesc L), List.pairwise_append] at h
     exact fun k hk x hx => h.2.2 k hk x hx
 
+/-- retention as the CHECKPOINT statement applies it: after ANY statement sequence, for every
+    timestamp, listing order, name and configured count, the checkpoints listed after a `CHECKPOINT`
+    are `min max (listed before + 1)` of the ones listed before plus the new one, and none of those
+    dropped has a later timestamp than any of those kept (with equal timestamps the listing order
+    decides — `retention_tie_drops_newest_witness`) -/
+theorem checkpoint_retention_keeps_newest (ops : List Op) (ts : Nat) (ord : List Nat) (nm : Nat) :
+    let d := run {} ops
+    let L := d.st.cps ++ [(d.nextCk, ts)]
+    let d' := (step d (.ckpt ts ord nm)).1
+    d'.st.cps.length = min d.maxCk L.length ∧ (∀ p ∈ d'.st.cps, p ∈ L) ∧
+      ∀ q ∈ L, q ∉ d'.st.cps → ∀ k ∈ d'.st.cps, q.2 ≤ k.2 := by
+  intro d L d'
+  have hinv : DbInv d := DbInv.init.run ops
+  have hnd : (L.map (·.1)).Nodup := by
+    show ((d.st.cps ++ [(d.nextCk, ts)]).map (·.1)).Nodup
+    rw [List.map_append]
+    refine List.nodup_append.mpr ⟨hinv.cpsNodup, by simp, ?_⟩
+    intro a ha b hb
+    simp only [List.map_cons, List.map_nil, List.mem_singleton] at hb
+    subst hb
+    intro e; subst e
+    have := hinv.cpsLt _ ((alHas_iff _ _).mpr ha); omega
+  have h := enforce_spec d.maxCk ord L hnd
+  exact ⟨h.1, fun p hp => enforce_subset _ _ _ p hp, h.2.2⟩
+
+example :
+    let ops : List Op := [.setmax 2, .ckpt 5 [] 1000, .ckpt 7 [] 1001, .kput 0 0 1 none]
+    let d' := (step (run {} ops) (.ckpt 6 [] 1002)).1
+    (run {} ops).st.cps = [(0, 5), (1, 7)] ∧ d'.st.cps = [(1, 7), (2, 6)] := by decide
+
 /-- with tied timestamps the listing order decides: a by_tag order listing the older c0 first makes
     retention delete the checkpoint that was just created -/
 theorem retention_tie_drops_newest_witness :
@@ -313,6 +343,21 @@ example :
     let d2 := run (step d0 (.ckpt 8 [] 1007)).1 post
     d0.nextCk = 1 ∧ alHas d2.st.cps 1 = true ∧ (step d2 (.rollback 1007 [])).2 = .ok ∧
     (step d2 (.rollback 1 [])).2 = .ok ∧ qCkpts d2 = [0, 1, 2] := by decide
+
+/-- a `ROLLBACK TO x` that is not accepted (nothing listed under that id or name) changes nothing:
+    for every database and target the whole state — store, engines, archive — is as before -/
+theorem rollback_rejected_changes_nothing (ops : List Op) (x : Nat) (o : List Nat) :
+    (step (run {} ops) (.rollback x o)).2 ≠ .ok → (step (run {} ops) (.rollback x o)).1 = run {} ops := by
+  intro h
+  simp only [step, doRollback] at h ⊢
+  cases hl : loadCk (run {} ops) o x with
+  | none => rfl
+  | some c => rw [hl] at h; exact absurd rfl h
+
+example :
+    let ops : List Op := [.kput 0 0 1 none, .ckpt 5 [] 1000, .ckdel 0 []]
+    (step (run {} ops) (.rollback 0 [])).2 = .err .notFound ∧
+    (step (run {} ops) (.rollback 1000 [])).2 = .err .notFound := by decide
 
 /-- `CheckpointManager::delete(x)`: when accepted it unlists exactly the checkpoint `x` resolves to
     (the newest listed one whose id or name is `x`); the database content, every other listed
